@@ -510,3 +510,94 @@ theorem refRun_df (cfg : Cfg) (ops : List Op) (hnr : ∀ f, Op.revert f ∉ ops)
         | some p => simp only []; split <;> rfl
 
 end LunarVerif.C20
+
+namespace LunarVerif.C20
+
+/-! ### the effect of a reaction -/
+
+structure EInv (a : Acc) (r : Eff) : Prop where
+  file : a.file = r.file
+  admin : a.adminFail = r.adminFail
+  full : a.loadedFull = some r.last
+  free : a.loadedFree = some (strip r.last)
+
+theorem einv_boot (p : Pol) : EInv (Acc.boot p) (Eff.init p) := by
+  constructor <;> simp [Acc.boot, Eff.init]
+
+theorem update_keeps (a : Acc) (p : Pol) :
+    (a.update p).1.file = a.file ∧ (a.update p).1.adminFail = a.adminFail ∧
+    (a.update p).1.loadedFull = a.loadedFull ∧ (a.update p).1.loadedFree = a.loadedFree := by
+  unfold Acc.update; split <;> exact ⟨rfl, rfl, rfl, rfl⟩
+
+theorem revert_keeps (a : Acc) (free : Bool) :
+    (a.revert free).1.file = a.file ∧ (a.revert free).1.adminFail = a.adminFail ∧
+    (a.revert free).1.loadedFull = a.loadedFull ∧ (a.revert free).1.loadedFree = a.loadedFree := by
+  unfold Acc.revert
+  split
+  · exact update_keeps a _
+  · exact ⟨rfl, rfl, rfl, rfl⟩
+
+theorem einv_revert (a : Acc) (r : Eff) (free : Bool) (h : EInv a r) : EInv (a.revert free).1 r := by
+  obtain ⟨h1, h2, h3, h4⟩ := revert_keeps a free
+  exact ⟨h1.trans h.file, h2.trans h.admin, h3.trans h.full, h4.trans h.free⟩
+
+theorem eff_step_inv (cfg : Cfg) (s : Sys) (op : Op) (r : Eff) (a : Acc)
+    (hs : s.acc = some a) (hinv : EInv a r) :
+    (effStep r (op, (sysStep cfg s op).2)).2 = true ∧
+    ∃ a', (sysStep cfg s op).1.acc = some a' ∧ EInv a' (effStep r (op, (sysStep cfg s op).2)).1 := by
+  cases op with
+  | thr t => exact ⟨rfl, a, by simp [sysStep, hs], hinv⟩
+  | write f =>
+    exact ⟨rfl, { a with file := f }, by simp [sysStep, hs], ⟨rfl, hinv.admin, hinv.full, hinv.free⟩⟩
+  | admin b =>
+    exact ⟨rfl, { a with adminFail := b }, by simp [sysStep, hs], ⟨hinv.file, rfl, hinv.full, hinv.free⟩⟩
+  | revert free =>
+    simp only [sysStep, hs]
+    exact ⟨rfl, _, rfl, einv_revert a r free hinv⟩
+  | reload =>
+    simp only [sysStep, hs]
+    refine ⟨rfl, _, rfl, ?_⟩
+    simp only [effStep]
+    cases hc : r.file.content with
+    | none =>
+      have : a.reload = (a, false) := by simp [Acc.reload, hinv.file, hc]
+      rw [this]; exact hinv
+    | some p =>
+      have hk := update_keeps ({ a with loadedFull := some p, loadedFree := some (strip p) } : Acc) p
+      have hr : a.reload = ({ a with loadedFull := some p, loadedFree := some (strip p) } : Acc).update p := by
+        simp [Acc.reload, hinv.file, hc]
+      rw [hr]
+      exact ⟨hk.1.trans hinv.file, hk.2.1.trans hinv.admin, hk.2.2.1, hk.2.2.2⟩
+  | obs lat h =>
+    simp only [sysStep, hs]
+    generalize (step cfg s.w ⟨(predicate s.thr h).1, lat⟩) = st
+    cases hreact : st.2.react with
+    | none => simp only [react, hreact, effStep]; exact ⟨trivial, a, rfl, hinv⟩
+    | some sv =>
+      simp only [react, hreact, effStep, Option.map_some]
+      refine ⟨?_, _, rfl, einv_revert a r (!sv) hinv⟩
+      by_cases hadm : r.adminFail = true
+      · simp [hadm]
+      · have hadm' : a.adminFail = false := by rw [hinv.admin]; simpa using hadm
+        have hadm'' : r.adminFail = false := by simpa using hadm
+        simp only [hadm'', Bool.false_eq_true, if_false]
+        cases sv with
+        | true =>
+          simp only [Acc.revert, Bool.not_true, Bool.false_eq_true, if_false, hinv.full, Acc.update, hadm',
+            Bool.false_and, if_true, beq_self_eq_true]
+        | false =>
+          simp only [Acc.revert, Bool.not_false, if_true, hinv.free, Acc.update, hadm',
+            Bool.false_and, Bool.false_eq_true, if_false, strip, Bool.or_self, Bool.not_false]
+
+theorem effect_run (cfg : Cfg) (ops : List Op) :
+    ∀ (s : Sys) (r : Eff) (a : Acc), s.acc = some a → EInv a r →
+      effectOk r (sysRun cfg s ops) = true := by
+  induction ops with
+  | nil => intros; rfl
+  | cons op ops ih =>
+    intro s r a hs hinv
+    obtain ⟨hok, a', hs', hinv'⟩ := eff_step_inv cfg s op r a hs hinv
+    simp only [sysRun, effectOk, hok, Bool.true_and]
+    exact ih _ _ a' hs' hinv'
+
+end LunarVerif.C20
